@@ -386,6 +386,15 @@ func (k *kitGRPCClient) Emit(o, e []byte) error {
 	return err
 }
 
+// AcceptOnce: a host-side broker Accept on a fresh id, in the calling goroutine (so that a hang is the caller's hang).
+func (k *kitGRPCClient) AcceptOnce() error {
+	ln, err := k.broker.Accept(k.broker.NextId())
+	if err == nil {
+		ln.Close()
+	}
+	return err
+}
+
 func (k *kitGRPCClient) Callback() error {
 	id := k.broker.NextId()
 	go servePingPong(k.broker, id)
